@@ -142,6 +142,73 @@ def h_noloss(s0: int, s1: int, s2: int, stray: int, relink: bool, prompt_decline
 
 
 # ---------------------------------------------------------------------------------------------------------
+def h_history(k: int, v: int, do_gc: bool, relink: bool, first: bool) -> bool:
+    """
+    pre: 0 <= k <= 2 and 0 <= v <= 2
+    post: _
+    """
+    # two checkouts in one process with the cache changing in between: whatever a first diff learnt about the cache must not be
+    # trusted by the second one
+    from dvc_data.hashfile.gc import gc
+
+    keys = KEYS
+    ki = pick(k, 0, len(keys) - 1)
+    variant = pick(v, 0, 2)  # what the user puts back at key ki: 0 the old (formerly cached) bytes, 1 fresh uncached bytes, 2 the target bytes
+    do_gc, relink, first = B(do_gc), B(relink), B(first)
+    env = make_env()
+    try:
+        with NoTracing():
+            st = env.state() if WITH_STATE else None
+            cache, obj = _setup_cache(env, st)
+            ws = env.p("ws")
+            for kk in keys:
+                env.write(ws + "/" + kk, OLDC[kk])
+        try:
+            if first:
+                checkout(ws, env.fs, obj, cache, force=False, relink=False, state=st)
+            if do_gc:
+                gc(cache, [obj.hash_info], shallow=False)
+        except HarnessGap:
+            raise
+        except Exception as e:  # noqa: BLE001
+            violation("history-setup-raised", f"{type(e).__name__}: {e}")
+            return True
+        with NoTracing():
+            p = ws + "/" + keys[ki]
+            env.remove(p)
+            env.write(p, [OLDC[keys[ki]], USER[keys[ki]], TGT[keys[ki]]][variant])
+            cached = {hashlib.md5(d).hexdigest() for d in env.odb_objects(cache).values()}
+            before = env.snapshot(ws)
+        raised = None
+        try:
+            checkout(ws, env.fs, obj, cache, force=False, relink=relink, state=st)
+        except (PromptError, CheckoutError, LinkError) as e:
+            raised = e
+        except HarnessGap:
+            raise
+        except Exception as e:  # noqa: BLE001
+            violation("checkout-raised-unexpected", f"{type(e).__name__}: {e}")
+            return True
+        with NoTracing():
+            after = env.snapshot(ws)
+            for rel, ent in before.items():
+                if ent[0] != "file":
+                    continue
+                now = after.get(rel)
+                gone = now is None or now[0] == "dir" or _content(env, ws, rel, now) != ent[1]
+                if gone and hashlib.md5(ent[1]).hexdigest() not in cached:
+                    violation("unrecoverable-user-data-destroyed", (rel, ent[1][:16], do_gc, variant))
+            data = [OLDC[keys[ki]], USER[keys[ki]], TGT[keys[ki]]][variant]
+            if data != TGT[keys[ki]] and hashlib.md5(data).hexdigest() not in cached and not isinstance(raised, PromptError):
+                violation("uncached-data-in-the-way-but-no-refusal", (keys[ki], variant, do_gc, type(raised).__name__))
+        journal({"key": keys[ki], "variant": variant, "gc": do_gc, "first": first, "relink": relink,
+                 "raised": type(raised).__name__ if raised else None}, nontrivial=True)
+        return True
+    finally:
+        env.close()
+
+
+# ---------------------------------------------------------------------------------------------------------
 def h_links(o1: int, o2: int, o3: int, u1: bool, u2: bool, k1: bool, k2: bool, k3: bool) -> bool:
     """
     pre: 0 <= o1 <= 4 and 0 <= o2 <= 4 and 0 <= o3 <= 4
